@@ -16,5 +16,5 @@ Your workspace: {wt} — a scratch git worktree of the WhatsHap repository (work
 Requirements for the change:
 - It must be the kind of bug a developer could plausibly introduce (refactoring slip, off-by-one, wrong tie-break, missing update on a rarely taken path, swapped arguments, wrong default, stale state across loop iterations, ...), small (a few lines), and must NOT be exposed by ordinary use at once: it should need something specific to manifest — an unusual input shape, a particular multi-step sequence of operations, a rarely taken branch, a specific size/threshold, or two cooperating sites that each look fine alone. {hint}
 - The existing test suite must still pass with the change: `cd {wt} && PYTHONPATH={wt} /venv/bin/python -m pytest -q -p no:cacheprovider --timeout=900 -x -q tests` (3 tests named test_vcf_with_missing_headers[*] fail even without any change; ignore those; about 40 s; run it!).
-- Write a demonstration `demo.py` (or demo_test.py) in {wt}/seed_out/ — a small standalone program using the public API or the CLI that exits non-zero / fails WITH the change and passes WITHOUT it (check both: `git stash` or run against /repo's unmodified code via PYTHONPATH=/repo), and that shows the property (as stated above) being violated — not merely that some output differs.
+- Write a demonstration `demo.py` (or demo_test.py) in {wt}/seed_out/ — a small standalone program using the public API or the CLI that exits non-zero / fails WITH the change and passes WITHOUT it (check both; for the run WITHOUT the change use /repo's unmodified code: `cd /tmp && PYTHONPATH=/repo /venv/bin/python <demo>`; never use `git stash`: the stash is shared by all worktrees of the repository and other people work in sibling worktrees), and that shows the property (as stated above) being violated — not merely that some output differs.
 Deliverables in {wt}/seed_out/: `patch.diff` (`git diff` of your source change only, applicable with `git apply` at the repository root), the demo, and `meta.json` with keys: property, summary (what the change does), needs (what is needed for it to manifest), files_changed, demo_cmd, test_suite_result. Do not commit. Final answer: a short summary of the change, what it needs to manifest, and the exact commands you ran with their outcomes.""")
